@@ -3,6 +3,7 @@
 package alt
 
 import (
+	"encoding/json"
 	"fmt"
 	"reflect"
 	"time"
@@ -69,6 +70,10 @@ func Generify(v any, options ...*Options) (n gen.Node) {
 		case time.Time:
 			n = gen.Time(tv)
 		case gen.Time:
+			n = tv
+		case json.Number:
+			n = gen.Big(tv)
+		case gen.Big:
 			n = tv
 		case []any:
 			a := make(gen.Array, len(tv))
@@ -151,6 +156,8 @@ func GenAlter(v any, options ...*Options) (n gen.Node) {
 			n = tv
 		case time.Time:
 			n = gen.Time(tv)
+		case json.Number:
+			n = gen.Big(tv)
 		case []any:
 			a := *(*gen.Array)(unsafe.Pointer(&tv))
 			for i, m := range tv {
